@@ -80,8 +80,8 @@ func (t *tr) global(pkgName, name string) *val {
 	if gp := t.g.pkgs[pkgName]; gp != nil && gp.assigned[name] {
 		t.fail("package-level variable %s is assigned outside init: it cannot be read as a constant", k)
 	}
-	if t.p.assigned[pkgName] {
-		t.fail("package %s assigns to a variable of package %s", t.p.name, pkgName)
+	if q := t.g.foreignWrite(pkgName); q != "" {
+		t.fail("package %s may change an object of package %s", q, pkgName)
 	}
 	var v *val
 	if gd.t.k == kStruct {
@@ -252,6 +252,9 @@ func (t *tr) copyStruct(x *val, ty *typ) *val {
 		for i, f := range x.o.sd.fields {
 			o.f[f] = t.field(x.o, f, i)
 		}
+		// the shared cells are authoritative for the copy too: a cached tuple would not
+		// see a later in-place write through the original (pk := PublicKey(*p); p.X.Neg(p.X))
+		o.whole, o.pw = "", false
 	}
 	return &val{t: ty, o: o}
 }
